@@ -40,7 +40,10 @@ RULE = ("sweep: every element (119), isotope, element ion and isotope ion of the
         "match the key (Z->symbol from an independent list). invalid: every 1-2 letter string that is not a symbol, "
         "table attribute names, case/blank variants of every name, 'A-Sym' for every A not in el.isotopes within "
         "[min-3, max+3] plus far values, malformed 'Sym-A'/'A-Sym-x'/'4-D' strings, el[A] for A not defined, every "
-        "charge in [-10, 10] not in el.ions (elements and all isotopes) must raise; numeric keys of table[Z], el[A] and "
+        "charge in [-10, 10] not in el.ions (elements and all isotopes) must raise; cross-route: every symbol, name (+ capitalised / upper case), "
+        "'A-Sym' string (all 2940), 'A-D'/'A-T', atomic number, digit string and ion-looking string is offered to EVERY "
+        "route (symbol(), name(), isotope(), table[.], getattr(table, .), module attribute) and must raise or return an "
+        "atom carrying that key in the attribute the route is about; numeric keys of table[Z], el[A] and "
         ".ion[c] that are no valid key (negatives of valid keys incl. -1..-120, out of range, 1.5, '1', None, tuples, slices, "
         "charge 0) must raise or return an atom whose number/isotope/charge equals the key (1.0, True); afterwards the valid lookups still "
         "return the same objects. growth: four private-table histories (all lists read first / isotope('2-H') first / iteration first / "
@@ -517,6 +520,68 @@ def _match_or_return(fn, key, attr):
     return got
 
 
+def _carries(route, key, obj):
+    """Does the atom *obj* returned by lookup *route* carry *key* in the attribute that route is about?"""
+    import re
+    from periodictable import core
+    if not core.isatom(obj) or core.ision(obj):
+        return False
+    sym, name = getattr(obj, "symbol", None), getattr(obj, "name", None)
+    if route == "symbol":
+        return isinstance(key, str) and sym == key
+    if route == "name":
+        return isinstance(key, str) and name == key
+    if route == "number":
+        return (not isinstance(key, str)) and obj.number == key and not core.isisotope(obj)
+    if route in ("attr", "module"):
+        return isinstance(key, str) and key in (sym, name)
+    if route == "isotope":
+        if not isinstance(key, str):
+            return False
+        m = re.match(r"^([1-9][0-9]*)-([A-Za-z]{1,2})$", key)
+        if m:       # 'A-Sym': that isotope of that element ('2-H' is D, whose own symbol is 'D')
+            if m.group(2) in ("D", "T"):    # 'A-D' is rejected today; accepting the own mass number would still match
+                return core.isisotope(obj) and obj.number == 1 and obj.isotope == int(m.group(1)) == {"D": 2, "T": 3}[m.group(2)]
+            return core.isisotope(obj) and obj.isotope == int(m.group(1)) and obj.number == ZOF.get(m.group(2), -1)
+        return key in (sym, name)       # 'Fe', 'D'; a name is left unjudged (class docstring mentions it)
+    raise ValueError(route)
+
+
+def _carry_or_return(fn, route, key):
+    """fn() for a key borrowed from ANOTHER route: it raises, or the atom returned carries the key in the
+    attribute this route is about (then _KeyMatches); anything else is returned (= wrongly accepted)."""
+    got = fn()
+    from periodictable import core
+    if route in ("attr", "module") and not core.isatom(got):
+        raise _KeyMatches()         # methods, lists, modules, functions: not an atom lookup at all
+    if _carries(route, key, got):
+        raise _KeyMatches()
+    return got
+
+
+def cross_keys(T):
+    """[(kind, key)] : every key that is valid for SOME lookup route (plus near variants), to be offered to all routes."""
+    out = []
+    names = [T[Z].name for Z in range(119)] + ["deuterium", "tritium"]
+    for sy in SYMBOLS + ["D", "T"]:
+        out.append(("symbol", sy))
+    for n in names:
+        out += [("name", n), ("name-case", n.capitalize()), ("name-case", n.upper())]
+    for Z in range(119):
+        for A in T[Z].isotopes:
+            out.append(("A-Sym", "%d-%s" % (A, SYMBOLS[Z])))
+        out += [("number", Z), ("digits", str(Z)), ("Sym-A", "%s-%d" % (SYMBOLS[Z], Z + 1))]
+        for c in T[Z].ions[:1] + T[Z].ions[-1:]:
+            sgn = "+" if c > 0 else "-"
+            out += [("ion-string", "%s{%d%s}" % (SYMBOLS[Z], abs(c), sgn)), ("ion-string", "%s%d%s" % (SYMBOLS[Z], abs(c), sgn)),
+                    ("ion-string", "%s%s" % (SYMBOLS[Z], sgn))]
+    for sy in ("D", "T"):
+        for A in (1, 2, 3):
+            out.append(("A-DT", "%d-%s" % (A, sy)))
+    out += [("A-Sym[]", "Fe[56]"), ("A-Sym[]", "H[2]"), ("A-Sym[]", "56Fe"), ("A-Sym[]", "Fe56")]
+    return out
+
+
 def number_keys(valid, lo, hi):
     """[(label, key, sub-kind)] : numeric neighbours of the valid integer keys and non-integer keys.
     Labels are the JSON-able names of the keys (slices, None)."""
@@ -572,6 +637,20 @@ def invalid_keys(T, Zs=None):
         for s, As in (("D", (1, 3, 4, 5)), ("T", (1, 2, 4, 5))):
             for A in As:
                 add("isostr:DT-number", "table.isotope", "%d-%s" % (A, s), lambda A=A, s=s: T.isotope("%d-%s" % (A, s)))
+        # cross-route: a key that is valid for one route is offered to every other route; the call raises or the
+        # object returned carries the key in the attribute that route is about
+        import periodictable
+        is_public = T is periodictable.elements
+        for kkind, k in cross_keys(T):
+            rts = [("symbol", "table.symbol", lambda k=k: T.symbol(k)), ("name", "table.name", lambda k=k: T.name(k)),
+                   ("isotope", "table.isotope", lambda k=k: T.isotope(k)), ("number", "table.__getitem__", lambda k=k: T[k])]
+            if isinstance(k, str):
+                rts.append(("attr", "getattr(table, .)", lambda k=k: getattr(T, k)))
+                if is_public:
+                    rts.append(("module", "getattr(periodictable, .)", lambda k=k: getattr(periodictable, k)))
+            for route, how, fn in rts:
+                add("cross:%s:%s" % (route, kkind), how, k,
+                    lambda fn=fn, route=route, k=k: _carry_or_return(fn, route, k))
         # atomic numbers are keys too: every neighbour of 0..118 on the table[Z] route
         for label, k, sub in number_keys(set(range(119)), 0, 118):
             add("number:" + sub, "table.__getitem__", label, lambda k=k: _match_or_return(lambda: T[k], k, "number"))
